@@ -181,3 +181,38 @@ Lemma compress_frame_from_source :
   cg_env = ["constants"; "labels"]%string /\ cg_pred_args = ["item"; "position"; "env"]%string /\
   cg_skip = "not isinstance(item, Instruction) or isinstance(item, PseudoInstruction)"%string.
 Proof. repeat split; reflexivity. Qed.
+
+(* resolve_register_aliases: the item is rebuilt from ALL its fields (vars(item), in order; a field that is one of the register keys
+   and whose value is a key of `constants` gets the constant's value, every other field -- immediate, is_auipc_jump, aq / rl, fence
+   sets -- is handed back to the constructor as it was); an item without such a field is kept as it is *)
+Definition register_aliases_from_source_stmt : Prop :=
+  (forall k, mem_str k REGS = mem_str k ra_regs) /\
+  ra_fields_from = "d = copy.deepcopy(vars(item))"%string /\
+  ra_skip_tests = ["key not in REGS"; "value not in constants"]%string /\
+  ra_assigns = ["reg = constants[value]"; "resolved_regs[key] = reg"]%string /\
+  ra_updates_fields = true /\ ra_rebuild = "new_item = item.__class__(*d.values())"%string /\
+  ra_keeps_item_when = ["not set(d.keys()) & REGS"; "not modified"]%string /\ ra_appends_rebuilt = true /\
+  (forall consts k s, alias_field consts (k, FReg (AStr s)) =
+     if mem_str k ra_regs then match assoc_str s consts with Some v => (k, FReg (AInt v)) | None => (k, FReg (AStr s)) end
+     else (k, FReg (AStr s))) /\
+  (forall consts k v, (forall s, v <> FReg (AStr s)) -> alias_field consts (k, v) = (k, v)) /\
+  (forall consts l cls name fs c r,
+     resolve_register_aliases ((l, IInstr cls name fs c) :: r) consts =
+     (l, IInstr cls name (map (alias_field consts) fs) c) :: resolve_register_aliases r consts) /\
+  (forall consts fs, map fst (map (alias_field consts) fs) = map fst fs).
+Lemma register_aliases_from_source : register_aliases_from_source_stmt.
+Proof.
+  split. { intro k. unfold mem_str, REGS, ra_regs. cbn [existsb].
+           destruct (String.eqb k "rd"), (String.eqb k "rs1"), (String.eqb k "rs2"), (String.eqb k "rd_rs1"); reflexivity. }
+  repeat (split; [reflexivity|]).
+  split. { intros consts k s. unfold alias_field.
+           replace (mem_str k ra_regs) with (mem_str k REGS).
+           - destruct (mem_str k REGS); [destruct (assoc_str s consts)|]; reflexivity.
+           - unfold mem_str, REGS, ra_regs. cbn [existsb].
+             destruct (String.eqb k "rd"), (String.eqb k "rs1"), (String.eqb k "rs2"), (String.eqb k "rd_rs1"); reflexivity. }
+  split. { intros consts k v Hv. destruct v as [[z|s]|e|z|b]; try reflexivity. exfalso. exact (Hv s eq_refl). }
+  split. { intros. reflexivity. }
+  intros consts fs. induction fs as [|[k v] fs IH]; [reflexivity|]. cbn [map fst]. rewrite IH. f_equal.
+  unfold alias_field. destruct v as [[z|s]|e|z|b]; try reflexivity.
+  destruct (mem_str k REGS); [destruct (assoc_str s consts)|]; reflexivity.
+Qed.
